@@ -16,7 +16,7 @@ META = {
     "outside": "mask shapes above 2x2 with symbolic positions (C03 covers larger concrete shapes for the attributes themselves)",
     "assumptions": ["epoch field per constellation pinned in spec/msm.json"],
 }
-WALL_BUDGET = {"quick": 480, "thorough": 3000}
+WALL_BUDGET = {"quick": 900, "thorough": 3000}
 
 
 def jobs(tier, seed):
